@@ -278,7 +278,12 @@ Inductive op :=
 | OAdmin (a : ipaddr) (down : bool)       (* the admin_down flag alone *)
 | ODisable (a : ipaddr)                   (* grpc.rs disable_peer, and the connection tasks it ends *)
 | OEnable (a : ipaddr)                    (* grpc.rs enable_peer *)
-| ODelete (a : ipaddr).                   (* grpc.rs delete_peer, and the connection tasks it ends *)
+| ODelete (a : ipaddr)                    (* grpc.rs delete_peer, and the connection tasks it ends *)
+| ODeleteReconnect (a : ipaddr) (r : role).
+   (* delete_peer, then a new connection from the same address is admitted while
+      the deleted neighbour's connection tasks are still running the end of
+      PeerSession::run: they find a record that is not theirs (Arc::ptr_eq on
+      the PeerContext) and leave it alone *)
 
 (* disable_peer: admin_down is set and force_down takes both close senders
    and tells the tasks to stop; each task then runs the end of
@@ -320,6 +325,12 @@ Definition step_op (g : global) (o : op) : global * option (option session) :=
       | None => (g, None)
       end
   | ODelete a => (set_peers g (remove a (gl_peers g)), None)
+  | ODeleteReconnect a r =>
+      let g1 := set_peers g (remove a (gl_peers g)) in
+      match accept_connection g1 a r with
+      | Accept g' s => (g', Some (Some s))
+      | Reject => (g1, Some None)
+      end
   end.
 
 Definition run_ops (g : global) (ops : list op) : global := fold_left (fun g o => fst (step_op g o)) ops g.
